@@ -1,4 +1,4 @@
-//go:build vsrace
+//go:build vsrace && !vsreal
 
 package vs
 
